@@ -1,80 +1,316 @@
-//! C04 — native-field gadgets are complete and sound (engine smoke version;
-//! the full catalogue lives in vp_circ::ops_native).
+//! C04 — native-field gadgets are complete and sound w.r.t. their
+//! mathematical meaning (level: fault_enumeration).
+//!
+//! The op catalogue, reference models and input generation live in
+//! `vp_circ::ops_native`; this binary drives them:
+//!
+//! * `<family>.complete`  — generated inputs from boundary classes: honest
+//!   witness + reference instance accepted, every (sampled for wide ops)
+//!   instance position changed once rejected (S1); inputs outside the
+//!   documented domain must not be accepted with any outputs the library
+//!   computes (plus a few faults).
+//! * `<family>.s2`        — assignment-time faults (hook H1) on every op:
+//!   quick = sampled faults on one input per op, thorough = every assignment
+//!   index x several fault values on several inputs + sampled pairs.
+//! * `<family>.flip`      — "flip an output-carrying cell + one repairing
+//!   cell" pair plans on small ops (stand-in for the S3 search of the design).
+//! * `to_le_chunks(>=64bit)` — F18 parameterisations, kept apart.
+//! * `vector.padding_flag(0<len<=A)` — parameterisations of the padding_flag
+//!   finding (payload entirely in the last chunk), kept apart; the main vector
+//!   sub-checks only generate the other lengths.
+//! * `to_le_bits.noncanonical` — rewrites the whole full-width decomposition
+//!   to the representation of x + p (multi-fault plan); must be rejected.
+//! * `div_rem.wraparound` — F19 targeted pair-fault probe.
+//!
+//! Development switches: `C04_ONLY=<family>` runs one family (plus the
+//! targeted sub-checks); `C04_VISIT=1` self-tests `ops_native::visit_ops`.
+//!
+//! Findings on the unchanged tree (seeds 1..3, quick): only
+//!   to_le_chunks(>=64bit):incomplete:reject                      (F18)
+//!   div_rem(d=..,bound=None):unsound:S2:wraparound-mod-p, rem(…)  (F19)
+//!   padding_flag(0<len<=A):accepts-wrong-flags                    (new)
+//!
+//! Sensitivity — mutants applied in a scratch worktree (/tmp/wt-c04), quick
+//! tier, VERIF_SEED=1; all five are caught in the quick tier:
+//!   M1 native_chip.rs is_equal_to_fixed: `assert_zero(must_be_zero)` of
+//!      equation (ii) dropped            -> equality.flip
+//!      (is_equal_to_fixed<…>:unsound:S2, plan {res: OneMinus, aux: Set(0)});
+//!      single faults (equality.s2) do not find it.
+//!   M2 native_gadget.rs lower_than: range check of z dropped
+//!                                        -> comparison.s2 and comparison.flip
+//!      (lower_than/leq/geq/ZkStdLib::lower_than:unsound:S2, single fault on
+//!      the result bit).
+//!   M3 native_chip.rs cond_swap: q_12_minus_34 not enabled
+//!                                        -> control+conversion.s2 / .flip
+//!      (cond_swap<native|bit|byte>:unsound:S2, single fault on `fst`).
+//!   M4 native_gadget.rs assigned_to_le_bits: canonicity check of the
+//!      full-width decomposition removed -> to_le_bits.noncanonical
+//!      (…:unsound:noncanonical-representation, also through
+//!      assigned_to_le_bytes(None)); single/pair faults do not find it.
+//!   M5 native_gadget.rs assert_lower_than_fixed (non-power-of-two bound):
+//!      final range check of the selected value dropped
+//!                                        -> range.complete
+//!      (assert_lower_than_fixed(b):accepts-out-of-domain-input, shrunk to x = b).
 
-use midnight_circuits::instructions::*;
-use midnight_circuits::types::{AssignedNative, InnerValue};
-use midnight_proofs::{circuit::{Layouter, Value}, plonk::Error};
-use midnight_zk_stdlib::ZkStdLib;
-use num_bigint::BigUint;
-use num_traits::{One, Zero};
-use num_integer::Integer;
 use proptest::prelude::*;
 use serde::{Deserialize, Serialize};
-use vp_circ::e2::*;
-use vpcore::{CaseResult, Verdict};
+use vp_circ::e2::Op;
+use vp_circ::ops_native::{p as modulus_p, *};
+use vpcore::{CaseResult, Failure, SplitMix};
 
-#[derive(Clone)]
-struct DivRem { d: u64 }
-impl Op for DivRem {
-    fn name(&self) -> String { format!("div_rem(d={},bound=None)", self.d) }
-    fn circuit<L: Layouter<F>>(&self, std: &ZkStdLib, l: &mut L, x: Value<Vec<BigUint>>) -> Result<(), Error> {
-        let a: AssignedNative<F> = std.assign(l, x.map(|x| big_to_f(&x[0])))?;
-        std.constrain_as_public_input(l, &a)?;
-        let (q, r) = std.div_rem(l, &a, BigUint::from(self.d), None)?;
-        std.constrain_as_public_input(l, &q)?;
-        std.constrain_as_public_input(l, &r)
-    }
-    fn reference(&self, x: &[BigUint]) -> Option<Vec<F>> {
-        let v = &x[0] % modulus();
-        let (q, r) = v.div_rem(&BigUint::from(self.d));
-        Some(vec![big_to_f(&v), big_to_f(&q), big_to_f(&r)])
-    }
-    fn n_input_scalars(&self) -> usize { 1 }
-    fn classify(&self, public: &[F]) -> Option<String> {
-        // wrap-around shape: d*q + r = x + p over the integers with r < d
-        let (x, q, r) = (f_to_big(&public[0]), f_to_big(&public[1]), f_to_big(&public[2]));
-        let d = BigUint::from(self.d);
-        if &d * &q + &r == &x + modulus() && r < d { Some("wraparound-mod-p".into()) } else { None }
-    }
-}
-
-#[derive(Clone)]
-struct IsZero;
-impl Op for IsZero {
-    fn name(&self) -> String { "is_zero".into() }
-    fn circuit<L: Layouter<F>>(&self, std: &ZkStdLib, l: &mut L, x: Value<Vec<BigUint>>) -> Result<(), Error> {
-        let a: AssignedNative<F> = std.assign(l, x.map(|x| big_to_f(&x[0])))?;
-        std.constrain_as_public_input(l, &a)?;
-        let b = std.is_zero(l, &a)?;
-        std.constrain_as_public_input(l, &b)
-    }
-    fn reference(&self, x: &[BigUint]) -> Option<Vec<F>> {
-        let v = &x[0] % modulus();
-        Some(vec![big_to_f(&v), if v.is_zero() { F::from(1) } else { F::from(0) }])
-    }
-    fn n_input_scalars(&self) -> usize { 1 }
+fn case_strategy(names: Vec<String>) -> BoxedStrategy<Case> {
+    let n = names.len();
+    ((0..n).no_shrink(), proptest::collection::vec((0u8..N_CLS, any::<u64>()), 4), any::<u64>())
+        .prop_map(move |(i, picks, seed)| Case { op: names[i].clone(), picks, seed })
+        .boxed()
 }
 
 #[derive(Clone, Debug, Serialize, Deserialize)]
-struct Case { x: u64, big: bool, seed: u64 }
+struct F19Case {
+    idx: usize,
+}
+
+/// Harness self-test of `visit_ops` (C04_VISIT=1): every visited tuple must be
+/// in-domain and accepted with its reference instance.
+struct VisitCheck {
+    ops: usize,
+    tuples: usize,
+    bad: Vec<String>,
+}
+impl vp_circ::e2::OpVisitor for VisitCheck {
+    fn visit<O: Op>(&mut self, op: &O, inputs: &[Vec<num_bigint::BigUint>]) {
+        self.ops += 1;
+        for x in inputs {
+            self.tuples += 1;
+            match op.reference(x) {
+                None => self.bad.push(format!("{}: out-of-domain {x:?}", op.name())),
+                Some(inst) => {
+                    let r = vp_circ::e2::run_given(op, x, &inst);
+                    if !r.outcome.accepted() {
+                        self.bad.push(format!("{}: not accepted {x:?}: {:?}", op.name(), r.outcome));
+                    }
+                }
+            }
+        }
+    }
+}
 
 fn main() {
-    vpcore::main("C04", "fault_enumeration", (1800, 14400), |p| {
-        let strat = || (prop_oneof![0u64..20, any::<u64>()], any::<bool>(), any::<u64>()).prop_map(|(x, big, seed)| Case { x, big, seed }).boxed();
-        let input = |c: &Case| -> Vec<BigUint> {
-            if c.big { vec![modulus() - BigUint::from(c.x % 1000) - BigUint::one()] } else { vec![BigUint::from(c.x)] }
+    if std::env::var("C04_VISIT").is_ok() {
+        let mut v = VisitCheck { ops: 0, tuples: 0, bad: vec![] };
+        visit_ops(&mut v, true, 1);
+        println!("visit_ops: {} ops, {} tuples, {} bad", v.ops, v.tuples, v.bad.len());
+        for b in v.bad.iter().take(20) {
+            println!("  {b}");
+        }
+        return;
+    }
+    vpcore::main("C04", "fault_enumeration", (1500, 14400), |p| {
+        p.assume("MockProver::verify on the real library circuit (MidnightCircuit over ZkStdLib) is the judge of satisfiability");
+        p.assume("reference models are num-bigint re-implementations of the documented meaning of each operation");
+        p.assume("map ops: the Merkle root is computed with the library's CPU Poseidon (MapMt); key/value semantics are checked against a HashMap model");
+        p.assume("vector ops: the buffer of an AssignedVector is not accessible through ZkStdLib; limits/padding flags are checked in-circuit, the logical content only through the honest value()");
+
+        // MockProver::verify panics (dev/util.rs, `Value::Poison => unreachable!()`)
+        // while *formatting* a violated gate that queries an unassigned cell; this
+        // happens on rayon worker threads under faults and is counted as "aborted"
+        // by the engine. Keep those messages (and their backtraces) off stderr.
+        let prev = std::panic::take_hook();
+        std::panic::set_hook(Box::new(move |info| {
+            let noisy = info.location().map(|l| l.file().ends_with("dev/util.rs")).unwrap_or(false);
+            if !noisy {
+                prev(info);
+            }
+        }));
+
+        let quick = p.quick();
+        let only = std::env::var("C04_ONLY").ok();
+        let per_op_complete: u32 = p.tier.pick(24, 360);
+        let s2_inputs: usize = p.tier.pick(2, 4);
+        let fams = catalogue();
+
+        // families run concurrently (each sub-check has its own streams); most of
+        // them are short and dominated by their slowest stream
+        let run_family = |fam: &Family| {
+            if only.as_deref().is_some_and(|o| o != fam.name) {
+                return;
+            }
+            let expensive = fam.name == "map";
+            let config = fam.name == "range-config";
+            let names: Vec<String> = fam.ops.iter().map(|o| o.name()).collect();
+            let find = |name: &str| fam.ops.iter().find(|o| o.name() == name).unwrap_or_else(|| panic!("harness: unknown op {name}"));
+
+            // (1) completeness + S1 / must-reject
+            let cases = fam.ops.len() as u32 * if expensive { p.tier.pick(2, 24) } else if config { p.tier.pick(8, 60) } else { per_op_complete };
+            p.sub(
+                &format!("{}.complete", fam.name),
+                "non-trivial iff an operand comes from a boundary class (0,1,2,pivot-1,pivot,pivot+1,pivot/2,p-1,p-2,(p-1)/2,(p+1)/2,equal/adjacent operand), a branch of the definition is crossed (zero, equal, wrap, exact division), or the input is outside the documented domain (must be rejected)",
+                cases,
+                16,
+                || case_strategy(names.clone()),
+                |c| run_complete(find(&c.op), c),
+            );
+
+            // (2) S2: every op gets faults
+            let mut rng = SplitMix(vpcore::derive_seed(&["C04", fam.name, "s2"], p.seed));
+            let mut items = vec![];
+            for op in &fam.ops {
+                for _ in 0..s2_inputs {
+                    let picks = (0..4).map(|_| ((rng.next_u64() % N_CLS as u64) as u8, rng.next_u64())).collect();
+                    items.push(Case { op: op.name(), picks, seed: rng.next_u64() });
+                }
+            }
+            p.enumerate(
+                &format!("{}.s2", fam.name),
+                "non-trivial iff at least one fault changed a cell and the run was rejected or accepted with correct public values (not only aborted / no-effect)",
+                items,
+                16,
+                false,
+                |c| -> CaseResult {
+                    let op = find(&c.op);
+                    if quick {
+                        run_s2(op, c, if expensive { 6 } else if config { 16 } else { 30 }, false, true)
+                    } else if op.wide() {
+                        // sampled singles + pairs
+                        run_s2(op, c, if expensive { 60 } else { 400 }, false, true)
+                    } else {
+                        // every assignment index x 3 values, then sampled pairs
+                        let v1 = run_s2(op, c, 3, true, false)?;
+                        let mut c2 = c.clone();
+                        c2.seed ^= 0x9e37_79b9;
+                        let v2 = run_s2(op, &c2, 200, false, true)?;
+                        let mut v = v1;
+                        v.nontrivial |= v2.nontrivial;
+                        v.classes.extend(v2.classes.into_iter().skip(2));
+                        Ok(v)
+                    }
+                },
+            );
+
+            // (2b) flip an output-carrying cell + one repairing cell (small ops)
+            if !matches!(fam.name, "vector" | "map" | "range-config" | "decomposition" | "assertions") {
+                let mut rng = SplitMix(vpcore::derive_seed(&["C04", fam.name, "flip"], p.seed));
+                let mut items = vec![];
+                for op in &fam.ops {
+                    for _ in 0..p.tier.pick(1, 6) {
+                        let picks = (0..4).map(|_| ((rng.next_u64() % N_CLS as u64) as u8, rng.next_u64())).collect();
+                        items.push(Case { op: op.name(), picks, seed: rng.next_u64() });
+                    }
+                }
+                p.enumerate(
+                    &format!("{}.flip", fam.name),
+                    "non-trivial iff an output-carrying assignment was found and at least one (flip, repair) pair plan was rejected or accepted with correct public values",
+                    items,
+                    16,
+                    false,
+                    |c| run_flip(find(&c.op), c, p.tier.pick(40, 80), p.tier.pick(2, 4)),
+                );
+            }
         };
-        for d in [5u64, 7, 1000] {
-            let op = DivRem { d };
-            p.sub(&format!("div_rem{d}.complete"), "smoke", 24, 8, strat, |c| check_complete_and_s1(&op, &input(c), c.seed));
-            p.sub(&format!("div_rem{d}.s2"), "smoke", 16, 8, strat, |c| -> CaseResult {
-                let (st, v) = check_s2(&op, &input(c), c.seed, 6, true, false)?;
-                Ok(v.with(format!("rej{} ok{} abort{} noeff{}", st.rejected.min(1), st.accepted_correct.min(1), st.aborted.min(1), st.no_effect.min(1))))
+        if p.is_replay() {
+            fams.iter().for_each(&run_family);
+        } else {
+            std::thread::scope(|sc| {
+                for fam in &fams {
+                    let run_family = &run_family;
+                    sc.spawn(move || run_family(fam));
+                }
             });
         }
-        let op = IsZero;
-        p.sub("is_zero.complete", "smoke", 24, 8, strat, |c| check_complete_and_s1(&op, &input(c), c.seed));
-        p.sub("is_zero.s2", "smoke", 16, 8, strat, |c| -> CaseResult { let (_, v) = check_s2(&op, &input(c), c.seed, 8, true, false)?; Ok(v) });
-        let _ = Verdict::trivial("x");
+
+        // (3) F18: chunk sizes >= 64 bits, separate so that the main sub-checks keep going
+        let ops18 = f18_ops();
+        let mut rng = SplitMix(vpcore::derive_seed(&["C04", "f18"], p.seed));
+        let mut items = vec![];
+        for op in &ops18 {
+            for _ in 0..p.tier.pick(3, 24) {
+                let picks = (0..4).map(|_| ((rng.next_u64() % N_CLS as u64) as u8, rng.next_u64())).collect();
+                items.push(Case { op: op.name(), picks, seed: rng.next_u64() });
+            }
+        }
+        p.enumerate(
+            "to_le_chunks(>=64bit)",
+            "non-trivial iff the honest decomposition with a chunk size >= 64 bits was checked on an in-domain input",
+            items,
+            16,
+            false,
+            |c| -> CaseResult {
+                let op = ops18.iter().find(|o| o.name() == c.op).expect("harness: unknown op");
+                match run_complete(op, c) {
+                    Ok(v) => Ok(v),
+                    Err(f) if f.signature.contains(":incomplete:") => {
+                        let kind = f.signature.rsplit(':').next().unwrap_or("").to_string();
+                        Err(Failure::new(format!("to_le_chunks(>=64bit):incomplete:{kind}"), format!("{}: {}", op.name(), f.detail)))
+                    }
+                    Err(f) => Err(f),
+                }
+            },
+        );
+
+        // (3b) padding_flag finding: payload entirely in the last chunk
+        let ops_pf = padflag_ops();
+        let mut rng = SplitMix(vpcore::derive_seed(&["C04", "padflag"], p.seed));
+        let mut items = vec![];
+        for op in &ops_pf {
+            for _ in 0..p.tier.pick(2, 12) {
+                let picks = (0..4).map(|_| ((rng.next_u64() % N_CLS as u64) as u8, rng.next_u64())).collect();
+                items.push(Case { op: op.name(), picks, seed: rng.next_u64() });
+            }
+        }
+        p.enumerate(
+            "vector.padding_flag(0<len<=A)",
+            "non-trivial iff the vector's final length is in 1..=A (payload entirely in the last chunk) and the circuit's accepted flags were compared with the definition",
+            items,
+            16,
+            false,
+            |c| -> CaseResult {
+                let op = ops_pf.iter().find(|o| o.name() == c.op).expect("harness: unknown op");
+                padflag_probe(op, c)
+            },
+        );
+
+        // (3c) canonicity of the full-width bit decomposition: rewrite the whole
+        // decomposition to the representation of x + p
+        {
+            use num_bigint::BigUint;
+            let pm = modulus_p();
+            let lim = pow2(255) - &pm;
+            let mut rng = SplitMix(vpcore::derive_seed(&["C04", "noncanonical"], p.seed));
+            let mut xs: Vec<BigUint> = vec![big(0), big(1), big(2), &lim - big(1), &lim - big(2)];
+            for _ in 0..p.tier.pick(3, 40) {
+                xs.push(BigUint::from_bytes_le(&rng.bytes(40)) % &lim);
+            }
+            let ops_nc = vec![
+                NOp::new(K::ToBits { n: None, canon: true, be: false }),
+                NOp::new(K::ToBits { n: Some(255), canon: true, be: true }),
+                NOp::new(K::ToBytes { n: None, be: false }),
+            ];
+            let items: Vec<(usize, String)> = (0..ops_nc.len()).flat_map(|i| xs.iter().map(move |x| (i, x.to_string()))).collect();
+            p.enumerate(
+                "to_le_bits.noncanonical",
+                "non-trivial iff x + p < 2^255 (two 255-bit representations), the decomposition layout was recognised and the rewritten witness was rejected",
+                items,
+                16,
+                false,
+                |c| -> CaseResult {
+                    let x: BigUint = c.1.parse().expect("harness: decimal");
+                    noncanonical_probe(&ops_nc[c.0], &x)
+                },
+            );
+        }
+
+        // (4) F19: targeted pair faults on the quotient / remainder hints
+        let items19 = f19_items();
+        p.enumerate(
+            "div_rem.wraparound",
+            "non-trivial iff dividend < d - (p mod d) and the pairs (quotient index i < 64, remainder index j < 4) were faulted with (floor(p/d), x + p mod d)",
+            (0..items19.len()).map(|idx| F19Case { idx }).collect(),
+            16,
+            false,
+            |c| -> CaseResult {
+                let (op, x) = &items19[c.idx];
+                f19_probe(op, x, 64)
+            },
+        );
     });
 }
